@@ -75,4 +75,72 @@ M = [
     ("C13", "cmp-chars-length-guard", "src/duration/parse.rs",
      "    if start_idx + cmp_bytes.len() > s_bytes.len() {",
      "    if start_idx + cmp_bytes.len() > s_bytes.len() + 1 {", "C13.R1"),
+    # ---------------------------------------------------------------- C06
+    ("C06", "threshold-strict", "src/epoch/mod.rs",
+     "            if self.to_tai_duration() >= leap_second.timestamp_tai_s * Unit::Second",
+     "            if self.to_tai_duration() > leap_second.timestamp_tai_s * Unit::Second", "C06.R"),
+    ("C06", "utc-target-counts-all-rows", "src/epoch/mod.rs",
+     "                    prime_epoch_offset - epoch.leap_seconds(true).unwrap_or(0.0).seconds()",
+     "                    prime_epoch_offset - epoch.leap_seconds(false).unwrap_or(0.0).seconds()", "C06.R"),
+    # ---------------------------------------------------------------- C07
+    ("C07", "naif-eb-rounded", "src/epoch/mod.rs",
+     "pub const NAIF_EB: f64 = 1.671e-2;", "pub const NAIF_EB: f64 = 1.67e-2;", "C07.R1"),
+    ("C07", "inner-g-cos", "src/epoch/mod.rs",
+     "        1.658e-3 * (g + 1.67e-2 * g.sin()).sin()", "        1.658e-3 * (g + 1.67e-2 * g.cos()).sin()", "C07.R"),
+    # ---------------------------------------------------------------- C08
+    ("C08", "minute-60-accepted", "src/epoch/gregorian.rs",
+     "        || minute > 59", "        || minute > 60", "C08.R1"),
+    ("C08", "leap-rule-4000", "src/epoch/gregorian.rs",
+     "    (year % 4 == 0 && year % 100 != 0) || year % 400 == 0",
+     "    (year % 4 == 0 && year % 100 != 0) || year % 4000 == 0", "C08.R"),
+    # ---------------------------------------------------------------- C09
+    ("C09", "display-swaps-month-day", "src/epoch/formatting.rs",
+     "                \"{:04}-{:02}-{:02}T{:02}:{:02}:{:02}.{:09} {}\",\n                y, mm, dd, hh, min, s, nanos, self.time_scale",
+     "                \"{:04}-{:02}-{:02}T{:02}:{:02}:{:02}.{:09} {}\",\n                y, dd, mm, hh, min, s, nanos, self.time_scale", "C09.R4"),
+    ("C09", "nanos-weights-swapped", "src/epoch/gregorian.rs",
+     "                + microseconds * NANOSECONDS_PER_MICROSECOND\n                + milliseconds * NANOSECONDS_PER_MILLISECOND) as u32,",
+     "                + microseconds * NANOSECONDS_PER_MILLISECOND\n                + milliseconds * NANOSECONDS_PER_MICROSECOND) as u32,", "C09.R"),
+    # ---------------------------------------------------------------- C11
+    ("C11", "units-table-ms-slot", "src/duration/parse.rs",
+     "    (\"ms\", 4),", "    (\"ms\", 5),", "C11.R2"),
+    ("C11", "display-unit-name", "src/duration/mod.rs",
+     "                \"min\",", "                \"m\",", "C11.R"),
+    # ---------------------------------------------------------------- C12
+    ("C12", "partial-cmp-without-conversion", "src/epoch/ops.rs",
+     "        Some(\n            self.duration\n                .cmp(&other.to_time_scale(self.time_scale).duration),\n        )",
+     "        Some(self.duration.cmp(&other.duration))", "C12.R"),
+    # ---------------------------------------------------------------- C14
+    ("C14", "round-tie-down", "src/duration/mod.rs",
+     "        if *self - floored < (ceiled - *self).abs() {", "        if *self - floored <= (ceiled - *self).abs() {", "C14.R"),
+    ("C14", "ceil-signed-step", "src/duration/mod.rs",
+     "            .checked_add(duration.abs().total_nanoseconds())", "            .checked_add(duration.total_nanoseconds())", "C14.R"),
+    # ---------------------------------------------------------------- C15
+    ("C15", "bounds-swapped", "src/timeseries.rs",
+     "        if (!self.incl && next_offset >= self.duration)\n            || (self.incl && next_offset > self.duration)",
+     "        if (!self.incl && next_offset > self.duration)\n            || (self.incl && next_offset >= self.duration)", "C15.R"),
+    ("C15", "counter-by-two", "src/timeseries.rs",
+     "            self.cur += 1;\n            Some(self.start + next_offset)", "            self.cur += 2;\n            Some(self.start + next_offset)", "C15.R"),
+    # ---------------------------------------------------------------- C16
+    ("C16", "weekday-max-8", "src/weekday.rs",
+     "    const MAX: u8 = 7;", "    const MAX: u8 = 8;", "C16.R"),
+    ("C16", "next-weekday-six-days", "src/epoch/ops.rs",
+     "            *self + 7 * Unit::Day", "            *self + 6 * Unit::Day", "C16.R"),
+    # ---------------------------------------------------------------- C17
+    ("C17", "mjd-offset-half-day", "src/lib.rs",
+     "pub const MJD_OFFSET: f64 = 2_400_000.5;", "pub const MJD_OFFSET: f64 = 2_400_000.0;", "C17.R"),
+    ("C17", "jde-tt-drops-offset", "src/epoch/mod.rs",
+     "        self.to_tt_duration() + Unit::Day * (MJD_J1900 + MJD_OFFSET)", "        self.to_tt_duration() + Unit::Day * MJD_J1900", "C17.R"),
+    # ---------------------------------------------------------------- C18
+    ("C18", "hour-factor-float", "src/timeunits.rs",
+     "            Unit::Hour => NANOSECONDS_PER_HOUR as f64,", "            Unit::Hour => NANOSECONDS_PER_MINUTE as f64,", "C18.R"),
+    # ---------------------------------------------------------------- C19
+    ("C19", "month-token-unpadded", "src/efmt/formatter.rs",
+     "                    Token::Month => {\n                        write_sep(f, i, &self.format)?;\n                        write!(f, \"{mm:02}\")?",
+     "                    Token::Month => {\n                        write_sep(f, i, &self.format)?;\n                        write!(f, \"{mm}\")?", "C19.R"),
+    # ---------------------------------------------------------------- C20
+    ("C20", "week-of-six-days", "src/epoch/initializers.rs",
+     "        nanos += i128::from(week) * Weekday::DAYS_PER_WEEK_I128 * i128::from(NANOSECONDS_PER_DAY);",
+     "        nanos += i128::from(week) * 6 * i128::from(NANOSECONDS_PER_DAY);", "C20.R"),
+    ("C20", "day-of-year-zero-based", "src/epoch/mod.rs",
+     "        self.duration_in_year().to_unit(Unit::Day) + 1.0", "        self.duration_in_year().to_unit(Unit::Day)", "C20.R"),
 ]
